@@ -1701,7 +1701,12 @@ fn generate_merge2(seed: u64, index: u64) -> (String, Vec<Vec<String>>) {
             let mut v = eval(x, y);
             if r.chance(1, 3) {
                 // a third write: nested MergeFn steps
-                let z = hi + 1 + r.below(3) as i64;
+                // (a write equal to the value stored at that moment is recorded finding P5: the
+                // encoded engine skips it, the plain engine applies the non-idempotent merge)
+                let mut z = hi + 1 + r.below(3) as i64;
+                while z == v {
+                    z += 1;
+                }
                 text.push_str(&format!("(set (g {a} {b}) {z})\n"));
                 v = eval(v, z);
             }
